@@ -103,20 +103,20 @@ type event struct {
 }
 
 type connRec struct {
-	cid       int
-	c         gnet.Conn
-	li        int
-	peer      net.Conn
-	peerLocal string
-	tag       int
-	openH     hres
-	trafQ     []hres
-	cact      gnet.Action
-	inWfail   bool
-	entered   int // callbacks entered
-	done      int // callbacks finished
-	opened    int
-	closed    int
+	cid             int
+	c               gnet.Conn
+	li              int
+	peer            net.Conn
+	peerLocal       string
+	tag             int
+	openH           hres
+	trafQ           []hres
+	cact            gnet.Action
+	inWfail         bool
+	entered         int // callbacks entered
+	done            int // callbacks finished
+	opened          int
+	closed          int
 	closedBeforeRet bool
 }
 
@@ -150,11 +150,11 @@ type X struct {
 	gnet.BuiltinEventEngine
 	cfg caseCfg
 
-	mu     sync.Mutex
-	cond   *sync.Cond
-	events []event
-	win    int
-	fails  [][3]string
+	mu      sync.Mutex
+	cond    *sync.Cond
+	events  []event
+	win     int
+	fails   [][3]string
 	lastAct atomic.Int64
 
 	// engine
@@ -178,11 +178,11 @@ type X struct {
 
 	// pins
 	pinBoot, pinOnShutdown, pinClosePollers, pinT bool
-	pinL                                         map[int]bool
-	nBlocked                                     map[int]int // callbacks of loop i currently held by a pin
-	inCb                                         int         // connection callbacks entered and not yet finished
-	atBoot, atOnShutdown, atClosePollers         bool
-	relBoot, relOnShutdown, relClosePollers      chan struct{}
+	pinL                                          map[int]bool
+	nBlocked                                      map[int]int // callbacks of loop i currently held by a pin
+	inCb                                          int         // connection callbacks entered and not yet finished
+	atBoot, atOnShutdown, atClosePollers          bool
+	relBoot, relOnShutdown, relClosePollers       chan struct{}
 
 	// connections
 	conns       []*connRec
@@ -196,27 +196,27 @@ type X struct {
 	udpPeer     net.Conn
 
 	// ticker
-	tickQ  []gnet.Action
+	tickQ    []gnet.Action
 	caseOver bool
 
 	// control calls
-	users      map[int]chan userCmd
-	pendingStop map[int]context.CancelFunc
-	busy       map[int]bool
-	nWorkers   int
-	workerDone map[int]bool
+	users        map[int]chan userCmd
+	pendingStop  map[int]context.CancelFunc
+	busy         map[int]bool
+	nWorkers     int
+	workerDone   map[int]bool
 	workerExpect map[int]bool
-	workerLate map[int]bool
-	pinnedAtEnd bool
-	carry      []event
-	endEvents  int
-	endWorkers map[int]bool
-	aux        net.Listener
-	auxConns   map[string]net.Conn // by remote address
-	execN      int
+	workerLate   map[int]bool
+	pinnedAtEnd  bool
+	carry        []event
+	endEvents    int
+	endWorkers   map[int]bool
+	aux          net.Listener
+	auxConns     map[string]net.Conn // by remote address
+	execN        int
 
 	// what the driver knows about requests (for the direct oracles)
-	requests   []string
+	requests       []string
 	expectStranded bool
 }
 
